@@ -441,7 +441,7 @@ func (w *convWorld) settle(horizon time.Duration, traffic bool) time.Duration {
 				w.do(convEv{kind: "hsout", n: i})
 			}
 		}
-		if traffic {
+		if traffic && (t/stepDt)%2 == 0 {
 			w.data(0)
 			w.data(1)
 		}
@@ -454,7 +454,7 @@ func (w *convWorld) settle(horizon time.Duration, traffic bool) time.Duration {
 				at = t
 			}
 			stable++
-			if stable > 12 { // stays converged over three more check intervals
+			if stable > 8 { // stays converged over two more check intervals
 				return at
 			}
 		} else {
@@ -560,7 +560,7 @@ func (w *convWorld) cleanTunnel(first int) {
 }
 
 func runConvergeNet(c *hx.Ctx) {
-	cw := c.NewCaseWriter("From NV Require Import model.Converge corr.Converge_corr.", "Converge_corr.case", "Converge_corr.check_case", 8)
+	cw := c.NewCaseWriter("From NV Require Import model.Converge corr.Converge_corr.", "Converge_corr.case", "Converge_corr.check_case", 2)
 	ca := convNewCA()
 	var failures []map[string]any
 	nConv, nSettled := 0, 0
